@@ -94,12 +94,12 @@ def fund_check(case):
     for i, (k, kw) in enumerate(A.items):
         if k == "hook" and kw["what"] == "market_before" and kw["times"][0] not in first_hook:
             first_hook[kw["times"][0]] = kw["fund"]
-        if k == "log.direct" and isinstance(kw["log"], MarketStepBeginLog):
+        if k == "log.direct" and kw["log_type"] == "MarketStepBeginLog":
             t = kw["times"][0]
             before = first_hook.get(t)
             if before is None:
                 continue
-            mi = sim.markets.index(kw["log"].market)
+            mi = sim.markets.index(sim.id2market[kw["market_id"]])
             for j, (b, a) in enumerate(zip(before, kw["fund"])):
                 # by the time market mi's step-begin record is written, the before-step hooks of markets 0..mi have run
                 factor = (1 + rate) if (j == ti and t in window and mi >= ti) else 1.0
